@@ -158,9 +158,10 @@ def make_stream(kind, data, load=0, exec_=0):
     return bytes(data)
 
 
-def write(files, fill=0xFF):
+def write(files, fill=0xFF, killed=()):
     """
     Independent writer. files: dicts name, ext, type, dtype, stream(bytes), chain(list of granules, long enough), slot(optional).
+    killed: directory slots that hold a KILLed file (first byte $00, the rest of the old entry left behind, its granules free).
     """
     img = bytearray([fill]) * IMAGE_SIZE
     img[FAT_OFF:FAT_OFF + 256] = b"\xFF" * NGRAN + b"\x00" * (256 - NGRAN)
@@ -180,4 +181,6 @@ def write(files, fill=0xFF):
         e = f["name"].upper().encode("latin1")[:8].ljust(8) + f["ext"].upper().encode("latin1")[:3].ljust(3) + \
             bytes([f["type"], f["dtype"], chain[0], (tail % 256) >> 8, (tail % 256) & 0xFF]) + bytes(16)
         img[DIR_OFF + 32 * slot:DIR_OFF + 32 * slot + 32] = e
+    for slot in killed:
+        img[DIR_OFF + 32 * slot:DIR_OFF + 32 * slot + 32] = b"\x00LDFILE BIN" + bytes([2, 0, 5, 0, 77]) + bytes(16)
     return bytes(img)
